@@ -507,7 +507,7 @@ fn node_strategy(n: usize) -> impl Strategy<Value = Node> {
         .prop_map(|(kind, bases, virtual_bases, fields, virtual_method, dtor)| Node { kind, bases, virtual_bases, fields, virtual_method, dtor })
 }
 
-fn graph_strategy(max_nodes: usize) -> impl Strategy<Value = Graph> {
+pub fn graph_strategy(max_nodes: usize) -> impl Strategy<Value = Graph> {
     (3..=max_nodes, proptest::bool::weighted(0.8))
         .prop_flat_map(|(n, cpp)| (proptest::collection::vec(node_strategy(n), n), Just(cpp)))
         .prop_map(|(nodes, cpp)| {
